@@ -2,6 +2,8 @@
 package props
 
 import (
+	"go/types"
+
 	"sidecheck/core"
 )
 
@@ -13,6 +15,9 @@ type Run struct {
 	Tier string
 	// Universal requests the module-wide (not only anchored) form of the rules.
 	Universal bool
+
+	nilableCache map[*types.Var]bool
+	mayNilMemo   map[string]int
 }
 
 // Checker decides one property on one loaded configuration.
